@@ -120,7 +120,7 @@ CHECKS = {
     text="Decides: every field of glyf::HintInstance is re-derived by setup() on every path (Vec fields cleared before grown, "
          "scalars assigned; `instructions` via the checked chain reconfigure -> run_program(Font) -> Engine::reset -> both "
          "DefinitionMap::reset -> fill); every field of HintingInstance is re-derived before every Ok of reconfigure() and `kind` "
-         "is None at every Err exit (reuse == fresh for every reconfigure history); draw entry points take &self and the only "
+         "is None at every Err exit, and reconfigure() reads no field of the instance before writing it (reuse == fresh for every reconfigure history); draw entry points take &self and the only "
          "interior mutability reachable from the shared types is the autohint metrics memo, written only by its getter and only "
          "with Some(compute_unscaled_style_metrics(..)) (a memo of a pure function: no history/thread dependence); "
          "to_path/contour_to_path/emit/finish emit move (seg)* close on every non-Err path; hinting configuration reads the "
